@@ -18,6 +18,32 @@
 
 namespace vs {
 
+// ---------- colour-converted views: destination pixel type and converter
+// The destination of a multi-channel source has several channels with distinct values (rgb8; bgr8 for an rgb8 source), so that
+// nth_channel_view(converted, k >= 1) can be told from channel 0.  The converter carries run-time state (bias) that a
+// default-constructed converter does not have: a factory that rebuilds a dereference adaptor with DFn() instead of copying its
+// function object yields different pixel values.
+template <class SrcValue, bool Multi = (gil::num_channels<SrcValue>::value > 1)> struct conv_dst
+{
+    using type = typename std::conditional<std::is_same<SrcValue, gil::gray8_pixel_t>::value, gil::rgb8_pixel_t, gil::gray8_pixel_t>::type;
+};
+template <class SrcValue> struct conv_dst<SrcValue, true>
+{
+    using type = typename std::conditional<std::is_same<SrcValue, gil::rgb8_pixel_t>::value, gil::bgr8_pixel_t, gil::rgb8_pixel_t>::type;
+};
+struct BiasedCC
+{
+    int bias = 0;
+    BiasedCC() {}
+    explicit BiasedCC(int b) : bias(b) {}
+    template <class S, class D> void operator()(S const& s, D& d) const
+    {
+        gil::default_color_converter()(s, d);
+        gil::at_c<0>(d) = static_cast<typename gil::channel_type<D>::type>(gil::at_c<0>(d) ^ bias);      // destinations are 8-bit unsigned
+    }
+};
+static const int CONV_BIAS = 0x2D;
+
 // ---------- root: exactly-sized storage, tagged through the raw model (no GIL involved)
 template <class Org> struct Root
 {
@@ -204,8 +230,8 @@ template <class Org, class Policy, class V, int Ch, bool Conv> struct Node : Nod
     void expand_conv(Ex& ex, std::true_type)
     {
         if (!ex.lim.conv) return;
-        using DstP = typename std::conditional<std::is_same<typename V::value_type, gil::gray8_pixel_t>::value, gil::rgb8_pixel_t, gil::gray8_pixel_t>::type;
-        auto v2 = gil::color_converted_view<DstP>(v);
+        using DstP = typename conv_dst<typename V::value_type>::type;
+        auto v2 = gil::color_converted_view<DstP>(v, BiasedCC(CONV_BIAS));
         ex.template push<decltype(v2), Ch, true>(v2, this->m.converted(), this->path + (this->path.empty() ? "" : ".") + "cc", this->depth + 1);
     }
 };
